@@ -47,6 +47,15 @@ func funcDecl(f *ast.File, recv, name string) *ast.FuncDecl {
 	return nil
 }
 
+func funcDeclOrNil(f *ast.File, name string) *ast.FuncDecl {
+	for _, d := range f.Decls {
+		if fd, ok := d.(*ast.FuncDecl); ok && fd.Recv == nil && fd.Name.Name == name {
+			return fd
+		}
+	}
+	return nil
+}
+
 // anyExprText renders any expression as source text (used where the shape of the expression is not prescribed).
 func anyExprText(e ast.Expr) string {
 	var sb strings.Builder
@@ -114,6 +123,41 @@ func switchTable(fd *ast.FuncDecl) (rows [][2]string, def string, hasDef bool) {
 		}
 		for _, e := range cc.List {
 			rows = append(rows, [2]string{exprText(e), ret})
+		}
+	}
+	return
+}
+
+// caseKinds: the case labels of the non-default clauses of the function's only switch (never fatal: a function whose
+// shape is not recognised yields a marker, so that only the statements about this table stop checking)
+func caseKinds(fd *ast.FuncDecl) (out []string) {
+	defer func() {
+		if recover() != nil {
+			out = []string{"<unrecognised>"}
+		}
+	}()
+	if fd == nil || fd.Body == nil {
+		return []string{"<unrecognised>"}
+	}
+	var sw *ast.SwitchStmt
+	for _, st := range fd.Body.List {
+		if s, ok := st.(*ast.SwitchStmt); ok {
+			if sw != nil {
+				return []string{"<unrecognised>"}
+			}
+			sw = s
+		}
+	}
+	if sw == nil {
+		return []string{"<unrecognised>"}
+	}
+	if tag := anyExprText(sw.Tag); tag != "value.Kind()" {
+		return []string{"<unrecognised switch on " + tag + ">"}
+	}
+	for _, c := range sw.Body.List {
+		cc := c.(*ast.CaseClause)
+		for _, e := range cc.List {
+			out = append(out, anyExprText(e))
 		}
 	}
 	return
@@ -204,6 +248,8 @@ func main() {
 	emitTable("go_equality_fn", append(rows, [2]string{"default", def}))
 	rows, def, _ = switchTable(funcDecl(evalF, "", "getMatchExprValue"))
 	emitTable("go_coerce_of_kind", append(rows, [2]string{"default", def}))
+
+	emitList("go_is_empty_kinds", caseKinds(funcDeclOrNil(evalF, "doMatchIsEmpty")))
 
 	// coerce.go: the strconv call inside each Coerce function and its constant arguments
 	fmt.Println("Definition go_coerce_calls : list (string * (string * list Z)) := [")
